@@ -92,7 +92,9 @@ TRUSTED = ["pydantic's coercion of the coordinate list before the field validato
            "buffer_shapely_geometry -> marker carrying the two buffers (dispatch trace); shapely.transform / buffer / "
            "clip_by_rect / to_geojson, json.loads -> stand-ins acting on a generic point and a bounding box (pipeline trace; "
            "a coordinate map is applied to the box corners, right for the increasing maps C11_pipeline_scaling proves them to be)",
-           "the spy around the `shapely` module seen by soundevent.geometry.operations (forwards every call unchanged)",
+           "the spy / guard around the `shapely` module seen by soundevent.geometry.operations (forwards every call "
+           "unchanged, except that shapely.buffer of a geometry with infinite / NaN coordinates -- on which GEOS can crash "
+           "the process -- is answered with an ArithmeticError: the call fails and is reported as such)",
            "during the dispatch traces symbolic numbers are hashable, `json.dumps` serialises them as their terms and the "
            "module-level containers of operations.py are put back before every replay (a trace describes a call in a fresh "
            "process; later calls are the business of the purity monitors and the histories)",
@@ -258,10 +260,12 @@ def _call(d, inp, k1="tb", k2="fb", opts=None):
     how = inp.get("how")
     opts = dict(opts or {})
     if not how:
-        return buffer_geometry(d, time_buffer=_arg(inp, k1, "t"), freq_buffer=_arg(inp, k2, "f"), **opts)
+        with _guarding():
+            return buffer_geometry(d, time_buffer=_arg(inp, k1, "t"), freq_buffer=_arg(inp, k2, "f"), **opts)
     val = {"tb": _repr_num(frac(inp[k1]), how.get("nt", "float")), "fb": _repr_num(frac(inp[k2]), how.get("nf", "float"))}
     pos, kw = _shape({"how": how, "tb": inp[k1], "fb": inp[k2]})
-    return buffer_geometry(d, *[val[k] for k in pos], **{NAMES[k]: val[k] for k in kw}, **opts)
+    with _guarding():
+        return buffer_geometry(d, *[val[k] for k in pos], **{NAMES[k]: val[k] for k in kw}, **opts)
 
 
 def _conv(c, leaf, seq=list):
@@ -385,6 +389,57 @@ def _uncovered(outer, inner, sx, sy):
     return max(0.0, dist - float(mx.max()) * 2.0 ** -46)
 
 
+class _NonFinite(ArithmeticError):
+    """the code under test handed a geometry with infinite / NaN coordinates to shapely.buffer"""
+
+
+def _finite(geometry):
+    """GEOS can take the whole process down (segmentation fault) when it buffers a line whose coordinates are
+    infinite; such a geometry is refused with an error instead -- the call fails either way, the check survives"""
+    import numpy as np
+    import shapely
+    try:
+        ok = bool(np.isfinite(shapely.get_coordinates(geometry)).all())
+    except Exception:  # noqa: BLE001   not a geometry: shapely's own business
+        ok = True
+    if not ok:
+        raise _NonFinite("a geometry with non-finite coordinates was handed to shapely.buffer")
+
+
+class _Guard:
+    """the `shapely` module as soundevent.geometry.operations sees it during a call made by the harness: everything
+    is forwarded unchanged, except that `buffer` refuses non-finite coordinates (see `_finite`)"""
+
+    def __init__(self, real):
+        self._real = real
+
+    def __getattr__(self, name):
+        return getattr(self._real, name)
+
+    def buffer(self, geometry, distance, *a, **kw):
+        _finite(geometry)
+        return self._real.buffer(geometry, distance, *a, **kw)
+
+
+class _guarding:
+    def __enter__(self):
+        try:
+            import shapely
+            import soundevent.geometry.operations as ops
+            self.ops, self.saved = ops, getattr(ops, "shapely", None)
+            self.on = self.saved is shapely      # not while the spy (which guards itself) or a tracer stub is in place
+            if self.on:
+                ops.shapely = _Guard(shapely)
+        except Exception:  # noqa: BLE001
+            self.on = False
+        return self
+
+    def __exit__(self, *exc):
+        if self.on:
+            self.ops.shapely = self.saved
+        return False
+
+
 class _Spy:
     """wraps the `shapely` module seen by soundevent.geometry.operations: the real functions run, their
     arguments and results are kept"""
@@ -402,6 +457,7 @@ class _Spy:
         return out
 
     def buffer(self, geometry, distance, *a, **kw):
+        _finite(geometry)
         out = self._real.buffer(geometry, distance, *a, **kw)
         self.buffers.append((geometry, distance, out))
         return out
